@@ -15,17 +15,20 @@ theorem bind_ok {ε α β : Type} {x : Except ε α} {f : α → Except ε β} {
   | error e => cases h
   | ok a => exact ⟨a, rfl, h⟩
 
-/-- the C side stopped in undefined behaviour that the model tracks: a signed 32-bit overflow -/
-def UB {α : Type} (r : Except Err α) : Prop := r = .error .overflow
+/-- the C side (strict reading) stopped where the model does not vouch for it: a signed 32-bit overflow (undefined behaviour),
+    or a `/` / `%` with a negative operand (defined in C, but not Python's `//` / `%`) -/
+def UB {α : Type} (r : Except Err α) : Prop := r = .error .overflow ∨ r = .error .signedDiv
 
 theorem ub_bind {α β : Type} {x : Except Err α} (f : α → Except Err β) (h : UB x) : UB (x >>= f) := by
-  unfold UB at h ⊢; rw [h]; rfl
+  rcases h with h | h <;> rw [h]
+  · exact .inl rfl
+  · exact .inr rfl
 
 theorem UB_ne_fuel {α : Type} {r : Except Err α} (h : UB r) : r ≠ .error .fuel := by
-  unfold UB at h; rw [h]; intro e; cases e
+  rcases h with h | h <;> rw [h] <;> intro e <;> cases e
 
 theorem UB_not_ok {α : Type} {r : Except Err α} {a : α} (h : UB r) : r ≠ .ok a := by
-  unfold UB at h; rw [h]; intro e; cases e
+  rcases h with h | h <;> rw [h] <;> intro e <;> cases e
 
 /-- the simulation relation between the Python store and the C store, for the names declared in `te` -/
 def Rel (te : C.TyEnv) (sp sc : Store) : Prop :=
@@ -125,8 +128,42 @@ theorem conv_pyVal (op : BinOp) (x y : Val) : C.conv .int (op.pyVal x y) = .int 
   show Val.int (op.pyVal x y).toInt = _
   rw [pyVal_toInt]
 
-theorem binop_cases (op : BinOp) (a b : Int) : C.binop op a b = .ok (.int (op.eval a b)) ∨ UB (C.binop op a b) :=
-  chk_cases _
+theorem pyEval_ok {op : BinOp} {x y v : Val} (h : op.pyEval x y = .ok v) :
+    v = op.pyVal x y ∧ (op.isDiv = true → y.toInt ≠ 0) := by
+  unfold BinOp.pyEval at h
+  split at h
+  · cases h
+  · rename_i hz
+    cases h
+    exact ⟨rfl, fun hd h0 => hz ⟨hd, h0⟩⟩
+
+theorem ceval_eq_eval_of_not_div {op : BinOp} (h : op.isDiv = false) (a b : Int) : op.ceval a b = op.eval a b := by
+  cases op <;> first | rfl | cases h
+
+/-- on a non-negative dividend and a positive divisor C's `/`, `%` are Python's `//`, `%` -/
+theorem ceval_eq_eval_of_nonneg (op : BinOp) {a b : Int} (ha : 0 ≤ a) (hb : 0 ≤ b) : op.ceval a b = op.eval a b := by
+  cases op <;> try rfl
+  · exact (Int.fdiv_eq_tdiv_of_nonneg ha hb).symm
+  · show a.tmod b = a.fmod b
+    rw [Int.fmod_eq_emod_of_nonneg _ hb, Int.tmod_eq_emod_of_nonneg ha]
+
+/-- the C operator (strict reading) against Python's: the same integer, or overflow, or a signed division -/
+theorem binop_cases (op : BinOp) (a b : Int) (hz : op.isDiv = true → b ≠ 0) :
+    C.binop op a b = .ok (.int (op.eval a b)) ∨ UB (C.binop op a b) := by
+  unfold C.binop
+  by_cases hd : op.isDiv = true
+  · rw [if_pos hd, if_neg (hz hd)]
+    by_cases hs : a < 0 ∨ b < 0
+    · rw [if_pos ⟨rfl, hs⟩]; right; exact .inr rfl
+    · rw [if_neg (fun h => hs h.2)]
+      have ha : 0 ≤ a := by omega
+      have hb : 0 ≤ b := by omega
+      rcases chk_cases (a.tdiv b) with h | h
+      · rw [h, ok_bind, ceval_eq_eval_of_nonneg op ha hb]
+        exact chk_cases _
+      · right; exact ub_bind _ h
+  · rw [if_neg hd, ceval_eq_eval_of_not_div (by simpa using hd)]
+    exact chk_cases _
 
 /-- the macro and the Python builtin choose operands of the same integer value -/
 theorem cpick_toInt (k : MinMax) (x y : Val) :
@@ -155,7 +192,7 @@ theorem expr_sim (te : C.TyEnv) (sp sc : Store) (hrel : Rel te sp sc) (e : Expr)
     rw [Py.eval] at hpy
     obtain ⟨x, hx, hpy⟩ := bind_ok hpy
     obtain ⟨y, hy, hpy⟩ := bind_ok hpy
-    cases hpy
+    obtain ⟨rfl, hz⟩ := pyEval_ok hpy
     rw [C.eval]
     rcases iha x hwt.1 hx with h | h
     · rw [h, ok_bind]
@@ -164,7 +201,7 @@ theorem expr_sim (te : C.TyEnv) (sp sc : Store) (hrel : Rel te sp sc) (e : Expr)
           conv_toInt _ x (fun ht => bool_val te sp sc hrel a x hwt.1 ht hx),
           conv_toInt _ y (fun ht => bool_val te sp sc hrel b y hwt.2 ht hy)]
         simp only [inferTy, conv_pyVal]
-        exact binop_cases _ _ _
+        exact binop_cases _ _ _ hz
       · right; exact ub_bind _ h'
     · right; exact ub_bind _ h
   | neg a iha =>
